@@ -32,6 +32,7 @@ type Event struct {
 	Fn       *ssa.Function
 	Seq      int
 	Deep     []string // arguments rendered at event time with local storage expanded
+	Snap     []*Term  // arguments with local storage frozen at event time
 }
 
 func (e Event) String() string {
@@ -69,6 +70,7 @@ type Walker struct {
 	AssumeBool map[string]bool
 	// hooks
 	CallName func(callee *ssa.Function, name string) (string, bool, bool)
+	OnRecv   func(w *Walker, ch *Term, t types.Type, id int) (*Term, bool)
 	OnCall func(w *Walker, name string, args []*Term, call *ssa.CallCommon, instr ssa.Instruction) (*Term, bool)
 
 	// per path
@@ -161,6 +163,38 @@ func (w *Walker) Walk(fn *ssa.Function, args []*Term, bindings []*Term) []Path {
 		w.script = append(w.script[:i:i], w.script[i]+1)
 	}
 	return paths
+}
+
+// freeze copies a term so that later writes to local cells do not show through.
+func freeze(t *Term, memo map[*Cell]*Cell, depth int) *Term {
+	if t == nil || depth > 12 {
+		return t
+	}
+	switch t.Op {
+	case "ptr", "sref":
+		if t.Cell == nil || t.Cell.Sym {
+			return t
+		}
+		c, ok := memo[t.Cell]
+		if !ok {
+			c = &Cell{ID: t.Cell.ID, Name: t.Cell.Name, Typ: t.Cell.Typ, Heap: t.Cell.Heap}
+			memo[t.Cell] = c
+			c.Val = freeze(t.Cell.Val, memo, depth+1)
+		}
+		n := *t
+		n.Cell = c
+		n.str = ""
+		return &n
+	case "struct", "mapv", "slicev", "iface", "tuple":
+		n := *t
+		n.str = ""
+		n.Args = make([]*Term, len(t.Args))
+		for i, a := range t.Args {
+			n.Args[i] = freeze(a, memo, depth+1)
+		}
+		return &n
+	}
+	return t
 }
 
 func (w *Walker) initialState() *PathState {
@@ -425,8 +459,10 @@ func (w *Walker) store(addr, v *Term, instr ssa.Instruction, fn *ssa.Function, d
 func (w *Walker) event(e Event) {
 	e.Seq = len(w.events)
 	if e.Kind == "call" || e.Kind == "go" || e.Kind == "defer" {
+		memo := map[*Cell]*Cell{}
 		for _, a := range e.Args {
 			e.Deep = append(e.Deep, termDeep(a))
+			e.Snap = append(e.Snap, freeze(a, memo, 0))
 		}
 	}
 	w.events = append(w.events, e)
@@ -682,6 +718,11 @@ func (w *Walker) step(fr *frame, in ssa.Instruction) {
 		case token.ARROW:
 			id := w.fresh("recv")
 			r := &Term{Op: "recv", Args: []*Term{a}, ID: id, Typ: x.Type()}
+			if w.OnRecv != nil {
+				if t, ok := w.OnRecv(w, a, x.Type(), id); ok {
+					r = t
+				}
+			}
 			w.event(Event{Kind: "recv", Name: a.String(), Args: []*Term{a}, Result: r, Pos: x.Pos(), Instr: x, Fn: fn, Depth: depth})
 			if x.CommaOk {
 				ok := &Term{Op: "fresh", Name: fmt.Sprintf("recvok(%s)@%d", a.String(), id), Typ: types.Typ[types.Bool]}
